@@ -6,6 +6,32 @@ import subprocess
 
 VERIF = os.path.dirname(os.path.dirname(os.path.abspath(__file__)))
 
+# scenario families added after the first version of each check (appended to the level text)
+ADDENDA = {
+    "C01": " Plus sessions in which the transport stalls in the MIDDLE of a frame while the server closes the connection "
+           "or a channel, or (heartbeats negotiated) for longer than the heartbeat interval, and backlogs above 1 MiB.",
+    "C02": " Plus sessions in which publishers outrun the transport (tiny water marks and handle queues, slow or stalled "
+           "writes) and runs of publishes to the same target with changing flags.",
+    "C03": " Plus a consumer that is not read while 1500-4200 deliveries queue up for it, with other consumers' deliveries "
+           "and replies sent behind that backlog.",
+    "C04": " Passive and nowait variants, server-named queues and the Queue wrapper methods are part of the sessions.",
+    "C05": " Plus slow callers (held just before they pick up a reply) with the close arriving right behind the reply, injected "
+           "errors of six io::ErrorKinds, and (model) liveness towards a protocol-abiding server: every caller, Connection::close "
+           "included, is eventually released.",
+    "C08": " Plus crossing closes (client Close written, then the server's Close and the CloseOk for the client's, together or "
+           "apart), slow callers, dropping the Connection instead of closing it, closes while the transport is stalled in "
+           "mid-frame; and on the model: towards a protocol-abiding server (own view of open channels/consumers) the I/O thread "
+           "never ends with an internal error (NoInternalError; fails at once without compliance).",
+    "C09": " Plus channel-close crossings on caller-chosen ids and server channel closes while the transport is stalled in the "
+           "middle of another channel's frame.",
+    "C13": " Plus returned messages arriving frame by frame while the return listener is registered, replaced or dropped "
+           "between the frames.",
+    "C15": " The end-to-end follow-through closes and reopens channels over several rounds.",
+    "C17": " Plus closes towards a server that has just gone silent (must end with MissedServerHeartbeats).",
+    "C20": " Plus closes that cross on the wire (connection and channel level), and the compliant-server invariant "
+           "NoInternalError on the model.",
+}
+
 # property -> (technique, level text, level note, design ref)
 CLAIMED = {
     "C01": (
@@ -246,6 +272,7 @@ def main():
         if pid not in CLAIMED:
             continue
         tech, text, note, ref = CLAIMED[pid]
+        text = text + ADDENDA.get(pid, "")
         checks.append({
             "property_id": pid,
             "quick_cmd": "bin/check %s quick" % pid,
